@@ -3,7 +3,9 @@ Lean: StirVerif/C16 (formula over any ordered field; sentinel cache; setter/set_
 Tie: hand-written model + correspondence: the real SingleScatterSimulation and the Lean driver answer the same operations
 (formula values recomputed exactly in Rat from the ingredients the implementation read; set-up/cache state machine:
 ok / err / crash / fresh / stale / number of scatter points / template sizes after every operation of a history).
-Oracle: the property's own statement on the implementation (harness/c16_scatter.cxx)."""
+Oracle: the property's own statement on the implementation (harness/c16_scatter.cxx).
+Round 2: BlocksOnCylindrical templates, in-place change + same pointer, same-count scatter points elsewhere, down-sampled scanners,
+automatic zoom, downsample_images_to_scanner_size, random placement."""
 import os
 from fractions import Fraction
 import vlib
@@ -16,6 +18,7 @@ EPSF = Fraction(1, 2 ** 24)
 # 4-5 orders of magnitude below the effect of a dropped/swapped factor.
 N_OPS_SSP = 16
 N_OPS_EST = 64
+N_OPS_EFFNS = 8
 
 
 def _frac(tok):
@@ -25,7 +28,7 @@ def _frac(tok):
 
 def compare(op, impl, model):
     kind = op.split(" ", 1)[0]
-    if kind not in ("ssp", "est"):
+    if kind not in ("ssp", "est", "effns"):
         # an all-zero output equals the all-zero output of a fresh object whatever was stale
         if impl == "ok zero":
             return model in ("ok fresh", "ok stale")
@@ -35,7 +38,7 @@ def compare(op, impl, model):
         x = Fraction(float.fromhex(impl))
     except (ValueError, ZeroDivisionError, OverflowError):
         return False
-    n = N_OPS_SSP if kind == "ssp" else N_OPS_EST
+    n = {"ssp": N_OPS_SSP, "est": N_OPS_EST, "effns": N_OPS_EFFNS}[kind]
     return abs(x - val) <= 4 * n * EPSF * mag
 
 
@@ -49,21 +52,40 @@ def main(tier, replay):
     audit = vlib.lean_gate(chk, PROP)
     stats = vlib.run_differential(chk, PROP, "c16_scatter", tier, compare=compare)
     vlib.standard_coverage(chk, stats,
-        "real SingleScatterSimulation on generated cylindrical scanners (8-16 detectors x 1-3 rings; thorough: 10 worlds), 3 templates per world "
-        "(two of equal size with different radius/energy resolution), 3 energy windows, dense/sparse/zero activity images, 2 attenuation images, "
-        "3 scatter-point images (two with the same number of scatter points at different voxels), 2 thresholds, 2 zoom sets. "
-        "`ssp`/`est`: value of simulate_for_one_scatter_point / actual_scatter_estimate vs the Lean formula evaluated exactly in Rat on the "
-        "ingredients the implementation read, tolerance 4*n*2^-24*M (n=16 / 64, M = formula on absolute values). "
-        "History operations (set_*/set_up/process/nsp/tmplinfo): answers ok/err/crash/`ok fresh`/`ok stale`/counts compared literally with the "
-        "Lean state machine; `ok fresh` = output bitwise equal to that of a freshly configured object. distinct = distinct operation lines. "
-        "Oracle: A<->B symmetry for all detector pairs x scatter points (64*2^-24 relative), bin = estimate of its pair (bitwise), >= 0, "
-        "zero activity => 0, 2*activity => 2*estimate (16*2^-24), additivity (4*64*2^-24), cache on == off (bitwise), every process_data of a "
-        "clean history == fresh object (bitwise).")
+        "real SingleScatterSimulation on generated scanners, 7 templates per world: cylindrical (8-16 detectors x 1-3 rings; two of equal size "
+        "with different radius/energy resolution, one of another size, two with a coarse default bin size), BlocksOnCylindrical (4-6 flat blocks of "
+        "3-4 crystals x 2-3 rings, two of equal size with different radius/crystal pitch: the two crystals of a pair are at different radii, "
+        "generator-checked), down-sampled scanners (downsample_scanner through the set_up flag and through explicit calls, both geometries); "
+        "3 energy windows, dense/sparse/zero activity images, 3 attenuation images (one the mirror image of another: same number of derived scatter "
+        "points elsewhere), 3 scatter-point images (two with the same number of scatter points at different voxels), 2 thresholds, 2 explicit zoom "
+        "sets + the automatic (-1) zoom/size, downsample_images_to_scanner_size, randomly_place_scatter_points off and on (time() replaced by a "
+        "clock derived from the seed). "
+        "`ssp`/`est`/`effns`: value of simulate_for_one_scatter_point / actual_scatter_estimate / detection_efficiency_no_scatter (both orders of "
+        "the pair) vs the Lean formula evaluated exactly in Rat on the ingredients the implementation read — the incidence cosine of EACH detector "
+        "separately — tolerance 4*n*2^-24*M (n=16 / 64 / 8, M = formula on absolute values), on all of the above configurations. "
+        "History operations (set_*/set_up/process/nsp/tmplinfo, `set_act_ip`/`set_att_ip`/`set_spimg_ip` = the owner overwrites the image in "
+        "place and hands the SAME shared_ptr to the setter again, `ds_scanner r d`, `ds_sp`): answers ok/err/crash/`ok fresh`/`ok stale`/counts "
+        "compared literally with the Lean state machine; `ok fresh` = output bitwise equal to that of a freshly configured object (given equal "
+        "VALUES through other pointers). distinct = distinct operation lines. "
+        "Oracle (every phase-A configuration): A<->B symmetry for all detector pairs x scatter points (64*2^-24 relative), bin = estimate of its "
+        "pair (bitwise), >= 0 (for pairs whose crystals face each other), detection points centred in z, zero activity => 0, 2*activity => "
+        "2*estimate (16*2^-24), additivity (4*64*2^-24) on fresh objects and on the SAME object (set_activity_image_sptr + set_up; the only form "
+        "used with random placement, where the clock advances between samplings), cache on == off (bitwise; same object with random placement); "
+        "every process_data of a clean history == fresh object (bitwise; a fifth of the random histories and some targeted ones with random "
+        "placement and the clock pinned). Oracle-only histories (not in the Lean state machine): automatic zoom/size after activity / "
+        "attenuation / template changes, downsample_images_to_scanner_size after a computation.")
     chk.assumptions += [
         "line integrals, Compton cross sections, detection efficiencies, cosines and pow() are inputs of the formula model (their linearity / sign "
-        "hypotheses are checked on the implementation by the oracle, not proved)",
-        "state machine over value identities: two different images/templates/windows are assumed to give different integrals (generator makes sure)",
-        "cylindrical scanners, explicit zoom factors for the scatter-point image, non-random scatter-point placement, single thread",
+        "hypotheses are checked on the implementation by the oracle, not proved); detector coordinates (find_detectors, blocks geometry) are taken "
+        "from the implementation, only their z-centring is checked",
+        "state machine over value identities: two different images/templates/windows are assumed to give different integrals (generator makes sure); "
+        "an in-place change + same pointer is modelled as the setter with new values (theorem C16_inplace_same_pointer_invalidates_like_new_pointer); "
+        "changing an image in place WITHOUT calling the setter is outside the property and not exercised",
+        "automatic (-1) zoom factors, downsample_images_to_scanner_size and set_randomly_place_scatter_points are not in the Lean state machine "
+        "(oracle on the implementation only); random placement: srand(time(NULL)) is made reproducible by replacing time(); two objects are only "
+        "compared with the clock pinned",
+        "BlocksOnCylindrical templates have >= 2 rings (downsample_scanner of a one-ring blocks scanner gives zero ring spacing) and only LORs "
+        "between different blocks (tangential range n/2-1); single thread",
         "32-bit overflow not modelled"]
     if audit:
         vlib.proof_coverage(chk, audit, "cd lean && lake build StirVerif stirdriver && lake env lean ../build/out/Audit_C16.lean")
